@@ -651,6 +651,7 @@ package argmapper
 //@   ensures  [function-unchanged] f.fn == old(f.fn) && f.once == old(f.once) && f.input == old(f.input)
 //@   ensures  [no-cache-without-once] imp(finalStep && !f.once, !cachedAtFinal)
 //@   assigns  *
+//@   modifies forall(x, *Func, true), forall(x, *valueVertex, true), forall(x, *typedArgVertex, true), forall(x, *typedOutputVertex, true)
 //@   before "builder, buildErr := f.argBuilder(opts...)" set finalStep = false
 //@   before "return f.callDirect(log, argMap)" assert [target-reached-only-without-converter-failure] failed == nil
 //@   before "return f.callDirect(log, argMap)" set finalStep = true
